@@ -117,7 +117,19 @@ func (s *RefreshableFileDataSource) Initialize() error {
 						util.Sleep(time.Second)
 					}
 				}
-				if ev.Op&fsnotify.Remove == fsnotify.Remove {
+				_, srcErr := os.Stat(s.sourceFilePath)
+				if ev.Op&fsnotify.Remove == fsnotify.Remove && srcErr == nil {
+					// Not the file under the watched name: a watch is on the inode, and what was removed is a file
+					// that used to carry the name - moved aside and deleted after a new file had been written in
+					// its place (the events of the old inode were already queued when the watch was moved to the
+					// new file), or replaced by a rename over it. Taken for the removal of the source, the event
+					// cleared the rules of the file that is there and ended the datasource. The file that is there
+					// is (still, or from now on) watched, and read.
+					logging.Warn("[RefreshableFileDataSource] A file that used to be the file source was removed.", "sourceFilePath", s.sourceFilePath)
+					if e := s.watcher.Add(s.sourceFilePath); e != nil {
+						logging.Error(e, "Failed to add to watcher", "sourceFilePath", s.sourceFilePath)
+					}
+				} else if ev.Op&fsnotify.Remove == fsnotify.Remove {
 					logging.Warn("[RefreshableFileDataSource] The file source was removed.", "sourceFilePath", s.sourceFilePath)
 					updateErr := s.Handle(nil)
 					if updateErr != nil {
